@@ -181,3 +181,93 @@ Proof.
   split; [exact Hd | exact (proj1 (proj2 (round_trip_3 Qc_field P (fun _ => Q2Qc (1 # 4)) Hd)))].
 Qed.
 Print Assumptions C10_instance_Qc.
+
+(* ================= isoparametric cells: polynomial identities in the reference point AND the node coordinates ===========
+   Gen.C10GenPoly holds the exact polynomials of the real lbasis of every mesh element (run on symbolic polynomials on this
+   run) and one vm_compute lemma per statement; Proofs.C10_IsoPolyProofs turns the boolean checks into statements at every
+   rational / real point.  F_i = sum_k node(k,i) phi_k and J_ij = sum_k node(k,i) dphi_k[j] are the basis expansions of
+   MappingIsoparametric.Fmap / _J (recognised textually by vlib/c10_tr.py) with the DELIVERED phi and dphi. *)
+From Coq Require Import Reals.
+From Coquelicot Require Import Coquelicot.
+Require Import Base.C09_Poly Base.C09_PolyQ Base.C09_PolyReal Model.C10_IsoPoly Proofs.C10_IsoPolyProofs.
+Example C10_requires_Gen_C10GenPoly : True.
+Proof. exact I. Qed.
+Print Assumptions C10_requires_Gen_C10GenPoly.
+Require Import Gen.C10GenPoly.
+Local Close Scope R_scope.
+Local Close Scope Q_scope.
+
+(* the delivered Jacobian is the formal derivative of the delivered map, every entry, for the element of EVERY mesh class
+   (straight, multilinear and curved second-order), at every rational reference point and node position *)
+Theorem C10_iso_J_is_derivative_of_F :
+  J_derivative_of_F_Q 1 line1_phi line1_dphi /\ J_derivative_of_F_Q 2 tri1_phi tri1_dphi /\
+  J_derivative_of_F_Q 2 quad1_phi quad1_dphi /\ J_derivative_of_F_Q 3 tet1_phi tet1_dphi /\
+  J_derivative_of_F_Q 3 hex1_phi hex1_dphi /\ J_derivative_of_F_Q 3 wedge1_phi wedge1_dphi /\
+  J_derivative_of_F_Q 2 tri2_phi tri2_dphi /\ J_derivative_of_F_Q 2 quad2_phi quad2_dphi /\
+  J_derivative_of_F_Q 3 tet2_phi tet2_dphi /\ J_derivative_of_F_Q 3 hex2_phi hex2_dphi.
+Proof.
+  exact (conj (derivative_sound_Q _ _ _ line1_J_is_derivative_of_F) (conj (derivative_sound_Q _ _ _ tri1_J_is_derivative_of_F) (conj (derivative_sound_Q _ _ _ quad1_J_is_derivative_of_F) (conj (derivative_sound_Q _ _ _ tet1_J_is_derivative_of_F) (conj (derivative_sound_Q _ _ _ hex1_J_is_derivative_of_F) (conj (derivative_sound_Q _ _ _ wedge1_J_is_derivative_of_F) (conj (derivative_sound_Q _ _ _ tri2_J_is_derivative_of_F) (conj (derivative_sound_Q _ _ _ quad2_J_is_derivative_of_F) (conj (derivative_sound_Q _ _ _ tet2_J_is_derivative_of_F) (derivative_sound_Q _ _ _ hex2_J_is_derivative_of_F)))))))))).
+Qed.
+Print Assumptions C10_iso_J_is_derivative_of_F.
+
+(* the same over the reals as a TRUE derivative (is_derive of Coquelicot): d F_i / d X_j = J_ij *)
+Theorem C10_iso_J_is_true_derivative_R :
+  J_true_derivative_R 2 quad1_phi quad1_dphi /\ J_true_derivative_R 3 hex1_phi hex1_dphi /\
+  J_true_derivative_R 3 wedge1_phi wedge1_dphi /\ J_true_derivative_R 2 tri2_phi tri2_dphi /\
+  J_true_derivative_R 2 quad2_phi quad2_dphi /\ J_true_derivative_R 3 tet2_phi tet2_dphi /\
+  J_true_derivative_R 3 hex2_phi hex2_dphi.
+Proof.
+  exact (conj (derivative_sound_R _ _ _ quad1_J_is_derivative_of_F) (conj (derivative_sound_R _ _ _ hex1_J_is_derivative_of_F) (conj (derivative_sound_R _ _ _ wedge1_J_is_derivative_of_F) (conj (derivative_sound_R _ _ _ tri2_J_is_derivative_of_F) (conj (derivative_sound_R _ _ _ quad2_J_is_derivative_of_F) (conj (derivative_sound_R _ _ _ tet2_J_is_derivative_of_F) (derivative_sound_R _ _ _ hex2_J_is_derivative_of_F))))))).
+Qed.
+Print Assumptions C10_iso_J_is_true_derivative_R.
+
+(* invDF DF = I = DF invDF and detDF = Leibniz ON the delivered polynomial Jacobian evaluated at any real point where the
+   determinant does not vanish (the cofactor formulas of C10_iso_cofactors instantiated at J := the polynomial J) *)
+Theorem C10_iso_inverse_of_delivered_J_R : forall (dphis : list (list poly)) (pt : nat -> R),
+  (let J := fun i j => reval (isoJ_poly 2 dphis i j) pt in
+   @iso_detDF_2 R ROps J <> 0%R ->
+   meq 2 (@matmul R ROps 2 (@iso_invDF_2 R ROps J) J) (@delta R ROps) /\ meq 2 (@matmul R ROps 2 J (@iso_invDF_2 R ROps J)) (@delta R ROps)) /\
+  (let J := fun i j => reval (isoJ_poly 3 dphis i j) pt in
+   @iso_detDF_3 R ROps J <> 0%R ->
+   meq 3 (@matmul R ROps 3 (@iso_invDF_3 R ROps J) J) (@delta R ROps) /\ meq 3 (@matmul R ROps 3 J (@iso_invDF_3 R ROps J)) (@delta R ROps)).
+Proof.
+  intros dphis pt. split; intros J Hd; [exact (iso_inverse_2 R_field J Hd) | exact (iso_inverse_3 R_field J Hd)].
+Qed.
+Print Assumptions C10_iso_inverse_of_delivered_J_R.
+
+(* the facet map (bndmap with the boundary element's basis) IS the restriction of F to the matching reference facet, for
+   every admissible ordering of the facet's vertices (all permutations for simplicial facets, the 8 dihedral orders for the
+   quadrilateral faces of a hexahedron) of every local facet; second-order 2-D cells include the mid-facet node *)
+Theorem C10_iso_facet_map_is_restriction_of_F :
+  facet_map_restricts_F_Q 1 line1_phi line1_psi line1_facets /\ facet_map_restricts_F_Q 2 tri1_phi tri1_psi tri1_facets /\
+  facet_map_restricts_F_Q 2 quad1_phi quad1_psi quad1_facets /\ facet_map_restricts_F_Q 3 tet1_phi tet1_psi tet1_facets /\
+  facet_map_restricts_F_Q 3 hex1_phi hex1_psi hex1_facets /\ facet_map_restricts_F_Q 2 tri2_phi tri2_psi tri2_facets /\
+  facet_map_restricts_F_Q 2 quad2_phi quad2_psi quad2_facets.
+Proof.
+  exact (conj (facet_sound_Q _ _ _ _ line1_facet_map_is_restriction_of_F) (conj (facet_sound_Q _ _ _ _ tri1_facet_map_is_restriction_of_F) (conj (facet_sound_Q _ _ _ _ quad1_facet_map_is_restriction_of_F) (conj (facet_sound_Q _ _ _ _ tet1_facet_map_is_restriction_of_F) (conj (facet_sound_Q _ _ _ _ hex1_facet_map_is_restriction_of_F) (conj (facet_sound_Q _ _ _ _ tri2_facet_map_is_restriction_of_F) (facet_sound_Q _ _ _ _ quad2_facet_map_is_restriction_of_F))))))).
+Qed.
+Print Assumptions C10_iso_facet_map_is_restriction_of_F.
+
+(* normals: nu = adj(J)^T N_s (adj = detDF * invDF, the T2-generated adjugate term instantiated at polynomials, J the delivered
+   Jacobian at the facet point) is orthogonal to every tangent dG/dxi_j of the facet map — also on curved facets *)
+Theorem C10_iso_normal_orthogonal_to_facet :
+  normal_orthogonal_Q 2 (@iso_adj_2 poly PolyOps) tri1_dphi tri1_psi tri1_facets_n /\
+  normal_orthogonal_Q 2 (@iso_adj_2 poly PolyOps) quad1_dphi quad1_psi quad1_facets_n /\
+  normal_orthogonal_Q 3 (@iso_adj_3 poly PolyOps) tet1_dphi tet1_psi tet1_facets_n /\
+  normal_orthogonal_Q 3 (@iso_adj_3 poly PolyOps) hex1_dphi hex1_psi hex1_facets_n /\
+  normal_orthogonal_Q 2 (@iso_adj_2 poly PolyOps) tri2_dphi tri2_psi tri2_facets_n /\
+  normal_orthogonal_Q 2 (@iso_adj_2 poly PolyOps) quad2_dphi quad2_psi quad2_facets_n.
+Proof.
+  exact (conj (normal_sound_Q _ _ _ _ _ tri1_normal_orthogonal_to_dG) (conj (normal_sound_Q _ _ _ _ _ quad1_normal_orthogonal_to_dG) (conj (normal_sound_Q _ _ _ _ _ tet1_normal_orthogonal_to_dG) (conj (normal_sound_Q _ _ _ _ _ hex1_normal_orthogonal_to_dG) (conj (normal_sound_Q _ _ _ _ _ tri2_normal_orthogonal_to_dG) (normal_sound_Q _ _ _ _ _ quad2_normal_orthogonal_to_dG)))))).
+Qed.
+Print Assumptions C10_iso_normal_orthogonal_to_facet.
+
+(* on a parallelogram / parallelepiped cell the delivered J is constant and equals the affine matrix of the corner simplex:
+   J_ij = node(e_j, i) - node(o, i) *)
+Theorem C10_iso_parallelogram_J_is_affine :
+  parallelogram_J_affine_Q 2 quad1_dphi quad1_coords quad1_origin quad1_units /\
+  parallelogram_J_affine_Q 3 hex1_dphi hex1_coords hex1_origin hex1_units.
+Proof.
+  exact (conj (para_sound_Q _ _ _ _ _ quad1_parallelogram_J_is_affine) (para_sound_Q _ _ _ _ _ hex1_parallelogram_J_is_affine)).
+Qed.
+Print Assumptions C10_iso_parallelogram_J_is_affine.
